@@ -106,29 +106,33 @@ def run(name, props_=None):
         drop_tree(d, wt)
 
 
-def runall():
+def run_one(name):
+    dst = os.path.join(VERIF, 'seeded', name)
+    meta = json.load(open(os.path.join(dst, 'meta.json')))
+    d, wt, r = scratch_tree(os.path.join(dst, 'patch.diff'))
+    try:
+        if r.returncode:
+            return name, None, 'patch no longer applies'
+        res = checks_for(meta['property'], wt, [meta['property']])
+        e = res[meta['property']]
+        meta['checks'] = dict(meta.get('checks', {}), **res)
+        json.dump(meta, open(os.path.join(dst, 'meta.json'), 'w'), indent=1)
+        return name, e['exit'], (e['lines'] or [''])[0][:150]
+    finally:
+        drop_tree(d, wt)
+
+
+def runall(jobs=3):
+    """every stored seed against its property's check (a few at a time: each check is parallel itself)"""
+    from concurrent.futures import ThreadPoolExecutor
+    names = [n for n in sorted(os.listdir(os.path.join(VERIF, 'seeded')))
+             if os.path.exists(os.path.join(VERIF, 'seeded', n, 'meta.json'))]
     bad = 0
-    for name in sorted(os.listdir(os.path.join(VERIF, 'seeded'))):
-        dst = os.path.join(VERIF, 'seeded', name)
-        if not os.path.exists(os.path.join(dst, 'meta.json')):
-            continue
-        meta = json.load(open(os.path.join(dst, 'meta.json')))
-        d, wt, r = scratch_tree(os.path.join(dst, 'patch.diff'))
-        try:
-            if r.returncode:
-                print('%-8s patch no longer applies' % name)
-                bad += 1
-                continue
-            res = checks_for(meta['property'], wt, [meta['property']])
-            e = res[meta['property']]
-            first = (e['lines'] or [''])[0][:150]
-            print('%-8s exit=%d %s' % (name, e['exit'], first))
-            bad += e['exit'] != 1
-            meta['checks'] = dict(meta.get('checks', {}), **res)
-            json.dump(meta, open(os.path.join(dst, 'meta.json'), 'w'), indent=1)
-        finally:
-            drop_tree(d, wt)
-    print('seeds not detected:', bad)
+    with ThreadPoolExecutor(jobs) as ex:
+        for name, code, first in ex.map(run_one, names):
+            print('%-8s exit=%s %s' % (name, code, first), flush=True)
+            bad += code != 1
+    print('seeds not detected:', bad, 'of', len(names), flush=True)
     return 1 if bad else 0
 
 
